@@ -103,6 +103,16 @@ pub fn build(mask: u32, network: u8, set_rank: usize) -> tir::Tx {
         amount: tirb::assets(out_assets),
         optional: false,
     });
+    if has(mask, "donation") {
+        // a required output whose only amount is a token entry of zero: its value is plain lovelace (zero), not a pair
+        // with an empty token map
+        tx.outputs.push(tir::Output {
+            address: tir::Expression::Address(addr.clone()),
+            datum: tir::Expression::None,
+            amount: tirb::assets(vec![tirb::token(&[0x88u8; 28], b"y", 0)]),
+            optional: false,
+        });
+    }
     if has(mask, "vanishing-optional-output") {
         tx.outputs.push(tir::Output {
             address: tir::Expression::Address(addr.clone()),
